@@ -2137,8 +2137,15 @@ func holdsPointer(rv reflect.Value, depth int, path valuePath) bool {
 			return true
 		}
 		for _, k := range rv.MapKeys() {
-			if holdsPointer(rv.MapIndex(k), depth+1, path) {
+			// (a pointer used as a key prints as an address too, and fmt leaves NaN keys
+			// in the map's iteration order)
+			if holdsPointer(k, depth+1, path) || holdsPointer(rv.MapIndex(k), depth+1, path) {
 				return true
+			}
+			if kf := k; kf.Kind() == reflect.Float64 || kf.Kind() == reflect.Float32 {
+				if f := kf.Float(); f != f {
+					return true
+				}
 			}
 		}
 	case reflect.Struct:
@@ -2284,32 +2291,37 @@ func writeDereferenced(b *strings.Builder, rv reflect.Value, depth int, path val
 				return
 			}
 		}
-		keys := rv.MapKeys()
-		names := make([]string, len(keys))
-		for i, k := range keys {
-			var kb strings.Builder
-			writeDereferenced(&kb, k, depth+1, path)
-			names[i] = kb.String()
+		// Keys and values are taken in one walk (a NaN key cannot be looked up again)
+		// and put in a fixed order: by what the key prints, then by the key's type
+		// (1 and "1"), then by what the value prints (several NaN keys)
+		type mapEntry struct {
+			name, typ, value string
 		}
-		order := make([]int, len(keys))
-		for i := range order {
-			order[i] = i
+		entries := make([]mapEntry, 0, rv.Len())
+		iter := rv.MapRange()
+		for iter.Next() {
+			var kb, vb strings.Builder
+			writeDereferenced(&kb, iter.Key(), depth+1, path)
+			writeDereferenced(&vb, iter.Value(), depth+1, path)
+			entries = append(entries, mapEntry{kb.String(), keyTypeName(iter.Key()), vb.String()})
 		}
-		sort.Slice(order, func(i, j int) bool {
-			if names[order[i]] == names[order[j]] {
-				// keys of different types that print alike (1 and "1")
-				return keyTypeName(keys[order[i]]) < keyTypeName(keys[order[j]])
+		sort.Slice(entries, func(i, j int) bool {
+			if entries[i].name != entries[j].name {
+				return entries[i].name < entries[j].name
 			}
-			return names[order[i]] < names[order[j]]
+			if entries[i].typ != entries[j].typ {
+				return entries[i].typ < entries[j].typ
+			}
+			return entries[i].value < entries[j].value
 		})
 		b.WriteString("map[")
-		for n, i := range order {
+		for n, e := range entries {
 			if n > 0 {
 				b.WriteString(" ")
 			}
-			b.WriteString(names[i])
+			b.WriteString(e.name)
 			b.WriteString(":")
-			writeDereferenced(b, rv.MapIndex(keys[i]), depth+1, path)
+			b.WriteString(e.value)
 		}
 		b.WriteString("]")
 	case reflect.Struct:
